@@ -46,7 +46,7 @@ var stackKnobs = []int{0, 1, 2, 7}
 func parserGrammars(includeAmbiguous, includeLexOnly bool) []*corpus.Grammar {
 	var out []*corpus.Grammar
 	for _, g := range corpus.Fixed() {
-		if !g.HasSyntax() && !includeLexOnly {
+		if g.GoccOnly || !g.HasSyntax() && !includeLexOnly {
 			continue
 		}
 		if g.Ambiguous && !includeAmbiguous {
